@@ -322,7 +322,7 @@ def run_tok(work, harness):
     return out
 
 
-def run_fuzz(work, harness, n, seed, ill):
+def run_fuzz(work, harness, n, seed, ill, hot=False):
     """impl -> spec beyond the enumerated groups: random pipelines (depth 2..5 over the whole sequential operator table) with
     adaptively chosen stimuli are executed on the real crate; every trace goes to TLC."""
     procs = []
@@ -330,6 +330,8 @@ def run_fuzz(work, harness, n, seed, ill):
         cmd = [harness, 'seq-fuzz', '--n', str(n), '--seed', str(seed), '--shard', str(k), '--of', str(NPROC), '--out', '%s/fuzz.fz%d.ndjson' % (work, k)]
         if ill:
             cmd.append('--ill')
+        if hot:          # long random call sequences on a subject / a connectable over a hot source (C10 / C13)
+            cmd += ['--hot', '1']
         procs.append(subprocess.Popen(cmd, stdout=subprocess.PIPE, stderr=subprocess.PIPE, text=True))
     tot = {'cases': 0, 'nontrivial': 0, 'ops': {}}
     for p in procs:
@@ -344,7 +346,7 @@ def run_fuzz(work, harness, n, seed, ill):
     return tot
 
 
-def run_seq_check(prop, tier, flags, plan, seed, design_ref, extra_assumptions=None, write=True, clear_replays=True, fuzz=0, fuzz_ill=False):
+def run_seq_check(prop, tier, flags, plan, seed, design_ref, extra_assumptions=None, write=True, clear_replays=True, fuzz=0, fuzz_ill=False, fuzz_hot=False):
     """plan: list of (group, maxstim, revs).  flags: the monitor flags of RxProps.Judge that decide `prop`."""
     t0 = time.time()
     harness = build_harness()
@@ -378,7 +380,7 @@ def run_seq_check(prop, tier, flags, plan, seed, design_ref, extra_assumptions=N
                     for d in s['diffs']:
                         d['tag'] = tag
                         diffs.append(d)
-        fz = run_fuzz(work, harness, fuzz, seed, fuzz_ill) if fuzz else None
+        fz = run_fuzz(work, harness, fuzz, seed, fuzz_ill, fuzz_hot) if fuzz else None
         # ---- impl -> spec: TLC judges recorded executions: all disagreeing ones, the model-rejected ones, a sample, and the random pipelines
         tv_files = [work + '/' + f for f in os.listdir(work) if re.search(r'\.(diff|bad|sample|fz)\d+\.ndjson$', f)]
         verdicts = validate_traces(work, tv_files, 'all')
